@@ -195,7 +195,11 @@ func checkC11(e *Env) {
 				case 0:
 					ss[i] = g.Compat(r, 1+r.Intn(8))
 				case 1:
-					ss[i] = g.Reordering(r, 2+r.Intn(8))
+					if i%16 == 1 { // runs up to the stream-safe limit of 30 non-starters
+						ss[i] = g.Reordering(r, 18+r.Intn(13))
+					} else {
+						ss[i] = g.Reordering(r, 2+r.Intn(8))
+					}
 				case 2:
 					b := &builder{g: g}
 					for k := 0; k <= r.Intn(4); k++ {
